@@ -11,13 +11,14 @@
 //        result: iterator state  k=v | end ; remove: R1:<v> | R0 ; w<n> appended when qpdf warned;
 //        "err:<class>" when an exception escaped
 //        dump  : node = <limits|_> then [k=v,...] if it has the items key and (...) if it has /Kids
-//        keys in dumps of name trees are h<hex of getUTF8Value()>.
+//        keys in dumps of name trees are h<hex of getUTF8Value()> (kind "namespell": h<hex of the stored bytes>).
 #include "drv.hh"
 #include <qpdf/QPDF.hh>
 #include <qpdf/QPDFExc.hh>
 #include <qpdf/QPDFNameTreeObjectHelper.hh>
 #include <qpdf/QPDFNumberTreeObjectHelper.hh>
 #include <qpdf/QPDFObjectHandle.hh>
+#include <qpdf/NNTree.hh>
 #include <memory>
 #include <stdexcept>
 
@@ -27,13 +28,14 @@ namespace
     {
         bool names;
         QPDF q;
+        bool rawdump{false}; // kind "namespell": dumps show the stored bytes of the keys instead of their UTF-8 values
     };
 
     std::string key_text(Ctx& c, QPDFObjectHandle k)
     {
         if (c.names) {
             if (!k.isString()) return "?";
-            std::string h = hex(k.getUTF8Value());
+            std::string h = hex(c.rawdump ? k.getStringValue() : k.getUTF8Value());
             return "h" + (h == "-" ? std::string() : h);
         }
         if (!k.isInteger()) return "?";
@@ -286,7 +288,10 @@ namespace
 
 static Reg r_nn("nn", [](std::vector<std::string> const& a) -> std::string {
     Ctx c;
-    c.names = a.at(0) == "name";
+    // "nameraw": same as "name" (the stored keys of the starting tree are raw string bytes in either case); the
+    // model side of these cases runs on the stored strings with the modelled compareKeys (Struct/NNKeys.v)
+    c.names = a.at(0) == "name" || a.at(0) == "nameraw" || a.at(0) == "namespell";
+    c.rawdump = a.at(0) == "namespell";
     c.q.emptyPDF();
     c.q.setSuppressWarnings(true);
     int t = std::stoi(a.at(1));
@@ -320,5 +325,84 @@ static Reg r_nnrepair("nnrepair", [](std::vector<std::string> const& a) -> std::
     if (!w.empty()) out += "w" + std::to_string(w.size());
     out += "@";
     dump(c, root, out, 0);
+    return out;
+});
+
+
+// ---------------------------------------------------------------------------------------------------------
+// nncmp <h<hex>,h<hex>,...> : the key comparison of NAME trees on all ordered pairs of the given stored strings.
+//   out: U:<hex of getUTF8Value() of every key, ','-separated> | C:<rows> | F:<rows>
+//   C rows: NNTreeImpl::compareKeys(key_i, key_j) called directly ('<' '=' '>' ; '?' for any other value), rows joined by '/'
+//   F rows: the same relation observed through the PUBLIC route: a one-entry name tree holding key_j (stored as given),
+//           NNTreeImpl::find(key_i) exact and at-or-below:  end,end -> '<' ; found,found -> '=' ; end,found -> '>'
+namespace
+{
+    // NNTreeImpl::compareKeys is private; naming a private member in an explicit instantiation is permitted
+    // ([temp.spec]/6), which hands the member pointer to a friend declared here
+    using CmpFn = int (NNTreeImpl::*)(QPDFObjectHandle, QPDFObjectHandle) const;
+    CmpFn nk_get_cmp();
+    template <CmpFn f>
+    struct NkRob
+    {
+        friend CmpFn nk_get_cmp() { return f; }
+    };
+    template struct NkRob<&NNTreeImpl::compareKeys>;
+} // namespace
+
+static Reg r_nncmp("nncmp", [](std::vector<std::string> const& a) -> std::string {
+    QPDF q;
+    q.emptyPDF();
+    q.setSuppressWarnings(true);
+    std::vector<QPDFObjectHandle> keys;
+    {
+        std::stringstream ss(a.at(0));
+        std::string k;
+        while (std::getline(ss, k, ',')) {
+            keys.push_back(QPDFObjectHandle::newString(unhex(k.size() > 1 ? k.substr(1) : std::string("-"))));
+        }
+    }
+    std::string out = "U:";
+    for (size_t i = 0; i < keys.size(); ++i) {
+        std::string h = hex(keys[i].getUTF8Value());
+        out += (i ? "," : "") + std::string("h") + (h == "-" ? std::string() : h);
+    }
+    auto ok = [](QPDFObjectHandle const& o) -> bool { return static_cast<bool>(o); };
+    auto root0 = q.makeIndirectObject(QPDFObjectHandle::parse("<< /Names [] >>"));
+    NNTreeImpl impl0(q, root0, ::ot_string, ok, false);
+    CmpFn cmp = nk_get_cmp();
+    out += "|C:";
+    for (size_t i = 0; i < keys.size(); ++i) {
+        if (i) out += "/";
+        for (size_t j = 0; j < keys.size(); ++j) {
+            int r = (impl0.*cmp)(keys[i], keys[j]);
+            out += r == -1 ? '<' : (r == 0 ? '=' : (r == 1 ? '>' : '?'));
+        }
+    }
+    out += "|F:";
+    // one tree per stored key: filled column by column
+    std::vector<std::string> rows(keys.size(), std::string(keys.size(), '?'));
+    for (size_t j = 0; j < keys.size(); ++j) {
+        auto d = QPDFObjectHandle::newDictionary();
+        auto arr = QPDFObjectHandle::newArray();
+        arr.appendItem(keys[j]);
+        arr.appendItem(QPDFObjectHandle::newInteger(1));
+        d.replaceKey("/Names", arr);
+        auto root = q.makeIndirectObject(d);
+        NNTreeImpl impl(q, root, ::ot_string, ok, false);
+        for (size_t i = 0; i < keys.size(); ++i) {
+            char c = '?';
+            try {
+                bool exact = impl.find(keys[i], false).valid();
+                bool le = impl.find(keys[i], true).valid();
+                c = (!exact && !le) ? '<' : ((exact && le) ? '=' : ((!exact && le) ? '>' : '?'));
+            } catch (std::exception const&) {
+                c = '!';
+            }
+            rows[i][j] = c;
+        }
+    }
+    for (size_t i = 0; i < rows.size(); ++i) {
+        out += (i ? "/" : "") + rows[i];
+    }
     return out;
 });
